@@ -28,7 +28,7 @@ ASSUMPTIONS = ["floats as reals", "FFT length fixed through fft_settings={'n': N
 OUTSIDE = ["finite-ness when the smoothed vertical spectrum is exactly zero (degenerate division paths are listed, not claimed)", "more than 3 records (SYMX) / 4 records (CrossHair)"]
 BOUNDS = {"quick": {"records": "2-3 (SYMX), 4 (CrossHair)", "time_steps": 2, "samples": 3, "n_fft": 4, "methods": 4, "policies": 3},
           "thorough": {"records": "2-3 (SYMX), 4 (CrossHair)", "time_steps": "2-3", "samples": 3, "n_fft": 4, "methods": 4, "policies": 3}}
-INSTANCE_TIMEOUT = {"quick": 230, "thorough": 1500}
+INSTANCE_TIMEOUT = {"quick": 230, "thorough": 700}
 POLICIES = ["frequency_domain_resampling", "keeping_smallest_time_step", "keeping_majority_time_step"]
 METHODS = ["arithmetic_mean", "single_azimuth", "rotdpp", "azimuthal"]
 DTS = [0.5, 0.25, 0.125]
